@@ -1,1 +1,5 @@
-// sim core (filled in below)
+//! sim core (filled in below)
+pub mod c19b {
+    use crate::util::{Ctx, Report};
+    pub fn run(_ctx: &Ctx, _rep: &mut Report) {}
+}
